@@ -1,7 +1,7 @@
 (* C10 — nil? / is_a? narrowing is exact inside branches and undone afterwards.
    A type is the list of the classes of its variants; `minus` removes classes.  For `if C` / `unless C` with C an
    && chain of tests, each on its own variable:  Proofs in NarrowP.v. *)
-From RT Require Import Model.Narrow Proofs.NarrowP.
+From RT Require Import Model.Narrow Proofs.NarrowP Proofs.NarrowChainP Proofs.NarrowElsifP.
 
 (* inside the branch of the condition every tested variable has exactly the variants its test admits *)
 Theorem C10_then_exact : forall k c e t, NoDup (map t_var c) -> In t c ->
@@ -26,6 +26,37 @@ Print Assumptions C10_else_of_conjunction.
 Theorem C10_restore : forall k c e x, ty_of (snd (conditional k c e)) x = ty_of e x.
 Proof. exact conditional_restores. Qed.
 Print Assumptions C10_restore.
+
+(* elsif chains: after `end` every variable has its pre-chain type again — for every number of elsif branches and
+   every condition in each (also variables tested only in an elsif condition), with or without else *)
+Theorem C10_chain_restore : forall c0 cs has_else e x, ty_of (snd (chain true c0 cs has_else e)) x = ty_of e x.
+Proof. exact chain_restores. Qed.
+Print Assumptions C10_chain_restore.
+
+(* the pinned code dropped the restore closures of the elsif conditions (repaired by a fix: commit) *)
+Theorem C10_chain_pinned_refuted : exists c0 cs e x, ty_of (snd (chain false c0 cs false e)) x <> ty_of e x.
+Proof. exact chain_pinned_refuted. Qed.
+Print Assumptions C10_chain_pinned_refuted.
+
+(* `if t0; elsif t1; ...; [else;] end` with positive tests (x.nil? / x.is_a?(C)) on the same or on different
+   variables, any number of branches: branch i sees its own variable as exactly the tested class and every other
+   variable without the classes that branches 0..i-1 took from it (BranchOK / branches_ok, `taken`); the else branch
+   sees every variable without everything the chain took from it *)
+Theorem C10_elsif_exact : forall t0 ts he e, all_pos (t0 :: ts) = true ->
+  exists brs ee ea, chain true [t0] (map (fun t => [t]) ts) he e = (brs, ee, ea) /\
+    branches_ok e [] (t0 :: ts) brs /\
+    (he = true -> exists b, ee = Some b /\ forall y, ty_of b y = minus (ty_of e y) (taken (t0 :: ts) y)).
+Proof. exact elsif_chain_exact. Qed.
+Print Assumptions C10_elsif_exact.
+
+Example C10_elsif_example :
+  let e := [("x", ["NilClass"; "String"; "Integer"]); ("y", ["Integer"; "Float"])] in
+  let t x c := {| t_var := x; t_cls := c; t_neg := false |} in
+  let '(brs, ee, ea) := chain true [t "x" "NilClass"] [[t "y" "Float"]; [t "x" "String"]] true e in
+  (map (fun b => (ty_of b "x", ty_of b "y")) brs, option_map (fun b => (ty_of b "x", ty_of b "y")) ee, (ty_of ea "x", ty_of ea "y")) =
+  ([(["NilClass"], ["Integer"; "Float"]); (["String"; "Integer"], ["Float"]); (["String"], ["Integer"])],
+   Some (["Integer"], ["Integer"]), (["NilClass"; "String"; "Integer"], ["Integer"; "Float"])).
+Proof. vm_compute. reflexivity. Qed.
 
 Example C10_example :
   let e := [("x", ["NilClass"; "String"]); ("y", ["Integer"; "String"; "Float"])] in
